@@ -1173,3 +1173,72 @@ Section Once.
     specialize (R R0 k). unfold calls_at in R. rewrite Hk in R. exact R.
   Qed.
 End Once.
+
+(* ------------------------------------------------------------------ every ready SubConn is tracked; pair force pick *)
+Section Tracked.
+  Variable W : Type.
+  Variable wzero : W.
+  Variable fexpr : W -> Z -> Z -> Z.
+  Variable fsqrt : Z -> Z.
+
+  (* Build makes one connection per ENTRY of the ReadySCs map, whatever Addresses the entries carry (shared
+     Addr, different ServerName/Attributes, exact duplicates), and no history ever loses one. *)
+  Lemma tracks_all_ready start (ready : ready_set) order s0 ops id :
+    build_ready start ready order = Some s0 ->
+    (forall x, In x (map fst ready) -> In x order) ->
+    In id (map fst ready) ->
+    List.length (conns (run W wzero fexpr fsqrt s0 ops)) = List.length order /\
+    exists pos c, nth_error (conns (run W wzero fexpr fsqrt s0 ops)) pos = Some c /\ scid c = id /\
+                  nth_error order pos = Some id.
+  Proof.
+    unfold build_ready. intros Hb Hperm Hin. pose proof (wf_run W wzero fexpr fsqrt _ _ _ ops Hb) as Hwf.
+    rewrite (run_grun W wzero fexpr fsqrt s0 ops (ghost0 (List.length (conns s0)))).
+    destruct (grun _ _ _ _ _ ops) as [s g]. cbn [fst]. destruct Hwf as (Hid & _).
+    split; [rewrite <- Hid; rewrite map_length; reflexivity|].
+    apply Hperm in Hin. apply In_nth_error in Hin as (pos & Hpos). exists pos.
+    rewrite <- Hid in Hpos. rewrite nth_error_map in Hpos.
+    destruct (nth_error (conns s) pos) as [c|] eqn:E; [|discriminate]. cbn in Hpos. inversion Hpos as [H1].
+    exists c. repeat split; auto. rewrite <- Hid, nth_error_map, E. cbn. congruence.
+  Qed.
+
+  (* the Addresses recorded are those of the SubConns, position by position *)
+  Lemma conn_addrs_spec (ready : ready_set) order pos id :
+    nth_error order pos = Some id -> nth_error (conn_addrs ready order) pos = Some (alookup Nat.eqb id ready).
+  Proof. intro H. unfold conn_addrs. rewrite nth_error_map, H. reflexivity. Qed.
+End Tracked.
+
+Section PairForce.
+  Variable fsqrt : Z -> Z.
+
+  Lemma choose_force t cs i1 i2 c1 c2 i cs' :
+    nth_error cs i1 = Some c1 -> nth_error cs i2 = Some c2 ->
+    choose fsqrt t cs i1 (Some i2) = Ok (i, cs') ->
+    (t - pickt c1 > forcePick -> t - pickt c2 <= forcePick -> i = i1) /\
+    (t - pickt c2 > forcePick -> t - pickt c1 <= forcePick -> i = i2).
+  Proof.
+    intros H1 H2. unfold choose. rewrite H1, H2.
+    destruct (load fsqrt c1 >? load fsqrt c2);
+      match goal with |- context [if ?b then _ else _] => destruct b eqn:G end;
+      intro H; inversion H; subst; split; intros; try reflexivity; lia.
+  Qed.
+
+  (* >= 3 connections: of the pair handed to choose, the connection not picked for more than forcePick is
+     picked now when the other one was picked within the last forcePick *)
+  Lemma pair_force_pick s d i id u s' :
+    (3 <= List.length (conns s))%nat -> pick fsqrt s d = Ok (i, id, u, s') ->
+    exists i1 i2 c1 c2,
+      draw_loop (conns s) pickTimes d None 0 = Ok (i1, i2, u) /\
+      nth_error (conns s) i1 = Some c1 /\ nth_error (conns s) i2 = Some c2 /\ (i = i1 \/ i = i2) /\
+      (now s - pickt c1 > forcePick -> now s - pickt c2 <= forcePick -> i = i1) /\
+      (now s - pickt c2 > forcePick -> now s - pickt c1 <= forcePick -> i = i2).
+  Proof.
+    intros Hlen E. apply pick_spec in E as (c & i1 & o2 & Hch & Hc & _ & _ & Hshape).
+    destruct Hshape as [(F & _)|[(F & _)|(_ & j & -> & Hdl)]]; try lia.
+    destruct (draw_loop_in _ _ _ _ _ _ _ _ Hdl) as (L1 & L2); [discriminate|].
+    destruct (nth_error (conns s) i1) as [c1|] eqn:E1; [|apply nth_error_None in E1; lia].
+    destruct (nth_error (conns s) j) as [c2|] eqn:E2; [|apply nth_error_None in E2; lia].
+    exists i1, j, c1, c2. destruct (choose_force _ _ _ _ _ _ _ _ E1 E2 Hch) as (A & B).
+    apply choose_spec in Hch as (c' & _ & _ & Hor).
+    repeat split; auto. destruct Hor as [->|Hj]; [left; reflexivity|right; inversion Hj; reflexivity].
+  Qed.
+End PairForce.
